@@ -594,7 +594,7 @@ SCENARIOS = {
     "nanmean[axis0-2d]": (sc_nanmean, lambda N: [("n", 1, N - 1), ("m", 1, 2), ("c", 1, N - 1), ("c2", 1, 2), ("s", 2, 3), ("j", 0, N - 1), ("j2", 0, 1), ("e", 0, 1)]),
     "apply_gufunc[core-dim]": (sc_gufunc_core, lambda N: [("n", 1, N), ("m", 1, 3), ("c", 1, N), ("e", 0, N), ("j", 0, N), ("j2", 0, 3)]),
     "apply_gufunc[two-args,broadcast]": (sc_gufunc_two, lambda N: [("n", 1, _D(N)), ("m", 1, N - 1), ("c", 1, _D(N)), ("c2", 1, N - 1), ("e", 0, _D(N)), ("e2", 0, N)]),
-    "rechunk[2d,small-memory]": (sc_rechunk_2d, lambda N: [("n", 1, _D(N)), ("m", 1, _D(N) - 1), ("c", 1, _D(N)), ("c2", 1, _D(N) - 1), ("d", 1, _D(N)), ("d2", 1, _D(N) - 1), ("M", 0, 50), ("mn", 0, 4), ("irr", 0, 1), ("e", 0, _D(N) - 1), ("e2", 0, _D(N) - 2)]),
+    "rechunk[2d,small-memory]": (sc_rechunk_2d, lambda N: (lambda D: [("n", 1, D), ("m", 1, D - 1), ("c", 1, D), ("c2", 1, D - 1), ("d", 1, D), ("d2", 1, D - 1), ("M", 0, 50 if D == 3 else 90), ("mn", 0, 4), ("irr", 0, 1), ("e", 0, D - 1), ("e2", 0, D - 2)])(3 if N <= 6 else 4)),
     "take[axis,2d]": (sc_take_axis, lambda N: [("n", 1, _D(N)), ("m", 1, 2), ("c", 1, _D(N)), ("c2", 1, 2), ("ax", 0, 1), ("i0", 0, 2), ("i1", 0, 2), ("e", 0, 2), ("p", 0, 1)]),
     **{f"index[2d,{nm}]": (_kind(sc_index_2d_mixed, k), lambda N: [("n", 1, _D(N)), ("m", 1, _D(N)), ("c", 1, _D(N)), ("c2", 1, _D(N)), ("a", 0, 2), ("st", 1, 2), ("e", 0, _D(N) - 1), ("e2", 0, _D(N) - 1)]) for k, nm in enumerate(_IDX_KINDS)},
     "expand_dims/squeeze[negative-axes]": (sc_squeeze_expand_neg, lambda N: [("n", 1, N), ("c", 1, N), ("k", 0, 2), ("e", 0, N)]),
